@@ -1738,6 +1738,9 @@ impl VectorEngine {
         }
 
         let prefix = Self::collection_embedding_prefix(collection);
+        let metric = collection_config_opt
+            .as_ref()
+            .map_or(DistanceMetric::Cosine, |c| c.distance_metric);
         let query_magnitude = Self::magnitude(query);
         if query_magnitude == 0.0 {
             return Ok(Vec::new());
@@ -1799,7 +1802,7 @@ impl VectorEngine {
                         if vector.len() != query.len() {
                             return None;
                         }
-                        let score = Self::cosine_similarity(query, &vector, query_magnitude);
+                        let score = Self::compute_score(query, &vector, query_magnitude, metric);
                         Some(SearchResult::new(key.to_string(), score))
                     })
                     .collect()
